@@ -24,12 +24,17 @@ const TypeKey = "\x00type"
 // the omitempty-modelled containers); inside untyped data nothing is folded.
 // Plugin sources are compared in canonical spelling (harness rule function).
 func modelToDoc(v any) *doc.Node {
-	return m2d(reflect.ValueOf(v), false)
+	return m2d(reflect.ValueOf(v), false, false)
+}
+
+// modelToDocRaw is modelToDoc with plugin sources kept as stored.
+func modelToDocRaw(v any) *doc.Node {
+	return m2d(reflect.ValueOf(v), false, true)
 }
 
 var timeType = reflect.TypeOf(time.Time{})
 
-func m2d(v reflect.Value, typedField bool) *doc.Node {
+func m2d(v reflect.Value, typedField bool, raw bool) *doc.Node {
 	if !v.IsValid() {
 		return doc.Null()
 	}
@@ -42,7 +47,7 @@ func m2d(v reflect.Value, typedField bool) *doc.Node {
 			}
 			n := &doc.Node{Kind: doc.KMap, Map: []doc.Pair{}, OrderedKeys: true}
 			_ = t.Range(func(k string, e any) error {
-				n.Map = append(n.Map, doc.P(k, m2d(reflect.ValueOf(e), false)))
+				n.Map = append(n.Map, doc.P(k, m2d(reflect.ValueOf(e), false, raw)))
 				return nil
 			})
 			return n
@@ -62,11 +67,15 @@ func m2d(v reflect.Value, typedField bool) *doc.Node {
 			if t == nil {
 				return doc.Null()
 			}
-			cfg := m2d(reflect.ValueOf(t.Config), false)
+			cfg := m2d(reflect.ValueOf(t.Config), false, raw)
 			if cfg.IsEmptyValue() {
 				cfg = doc.Null() // empty configs are canonicalised to null on purpose
 			}
-			return doc.M(doc.P(TypeKey, doc.S("Plugin")), doc.P("Source", doc.S(refmodel.PluginCanonical(t.Source))), doc.P("Config", cfg))
+			src := t.Source
+			if !raw {
+				src = refmodel.PluginCanonical(src)
+			}
+			return doc.M(doc.P(TypeKey, doc.S("Plugin")), doc.P("Source", doc.S(src)), doc.P("Config", cfg))
 		}
 	}
 	switch v.Kind() {
@@ -74,12 +83,12 @@ func m2d(v reflect.Value, typedField bool) *doc.Node {
 		if v.IsNil() {
 			return doc.Null()
 		}
-		return m2d(v.Elem(), false)
+		return m2d(v.Elem(), false, raw)
 	case reflect.Pointer:
 		if v.IsNil() {
 			return doc.Null()
 		}
-		return m2d(v.Elem(), false)
+		return m2d(v.Elem(), false, raw)
 	case reflect.Struct:
 		n := &doc.Node{Kind: doc.KMap, Map: []doc.Pair{doc.P(TypeKey, doc.S(v.Type().Name()))}}
 		for i := 0; i < v.NumField(); i++ {
@@ -93,7 +102,7 @@ func m2d(v reflect.Value, typedField bool) *doc.Node {
 			case reflect.Map, reflect.Slice, reflect.Pointer:
 				tf = true
 			}
-			n.Map = append(n.Map, doc.P(f.Name, m2d(fv, tf)))
+			n.Map = append(n.Map, doc.P(f.Name, m2d(fv, tf, raw)))
 		}
 		return n
 	case reflect.Map:
@@ -104,7 +113,7 @@ func m2d(v reflect.Value, typedField bool) *doc.Node {
 		sort.Slice(keys, func(i, j int) bool { return keys[i].String() < keys[j].String() })
 		n := &doc.Node{Kind: doc.KMap, Map: []doc.Pair{}}
 		for _, k := range keys {
-			n.Map = append(n.Map, doc.P(k.String(), m2d(v.MapIndex(k), false)))
+			n.Map = append(n.Map, doc.P(k.String(), m2d(v.MapIndex(k), false, raw)))
 		}
 		return n
 	case reflect.Slice:
@@ -115,7 +124,7 @@ func m2d(v reflect.Value, typedField bool) *doc.Node {
 		}
 		n := &doc.Node{Kind: doc.KSeq, Seq: []*doc.Node{}}
 		for i := 0; i < v.Len(); i++ {
-			n.Seq = append(n.Seq, m2d(v.Index(i), false))
+			n.Seq = append(n.Seq, m2d(v.Index(i), false, raw))
 		}
 		return n
 	case reflect.String:
